@@ -183,9 +183,9 @@ Theorem proc_first_call clk e :
   pe_iv e = INone \/ pe_iv e = IZero -> snd (proc_step clk p_init e) = Val 0.
 Proof. intros [H|H]; unfold proc_step; rewrite H; reflexivity. Qed.
 
-(* the state a Process object holds after sampling reading p *)
-Definition holds (clk : positive) (st : pstate) (p : reading) : Prop :=
-  let '(t, u, s) := p in p_sys st = Some t /\ p_proc st = Some (secs clk u, secs clk s).
+(* the state a Process object holds after sampling reading p: the wall clock and the whole tuple *)
+Definition holds (clk : positive) (st : pstate) (p : preading) : Prop :=
+  p_sys st = Some (r_t p) /\ p_proc st = Some (proc_cpu_times clk p).
 
 Lemma qzero_scale a b n : (1 <= n)%Z -> a == b * inject_Z n -> qzero a = qzero b.
 Proof.
@@ -199,17 +199,18 @@ Qed.
 Lemma ncpu_eff_pos n : (1 <= ncpu_eff n)%Z.
 Proof. unfold ncpu_eff. destruct (n <? 1)%Z eqn:E; [lia|apply Z.ltb_ge in E; lia]. Qed.
 
-Lemma proc_finish_spec clk n ta ua sa tb ub sb :
+(* whatever children_user, children_system and iowait of the two readings are *)
+Lemma proc_finish_spec clk n a b :
   (1 <= n)%Z ->
-  match snd (proc_finish ta (secs clk ua, secs clk sa) tb (secs clk ub, secs clk sb) n) with
-  | Val q => q == spec_proc_pct clk (ta, ua, sa) (tb, ub, sb)
+  match snd (proc_finish (r_t a) (proc_cpu_times clk a) (r_t b) (proc_cpu_times clk b) n) with
+  | Val q => q == spec_proc_pct clk a b
   | _ => False
   end.
 Proof.
-  intros Hn. unfold proc_finish, spec_proc_pct. cbn [snd fst].
-  rewrite (qzero_scale ((tb - ta) * inject_Z n) (tb - ta) n Hn (Qeq_refl _)).
-  destruct (qzero (tb - ta)) eqn:E; [reflexivity|].
-  assert (NZ : ~ tb - ta == 0) by (intros C; apply qzero_iff in C; congruence).
+  intros Hn. unfold proc_finish, spec_proc_pct, proc_cpu_times. cbn [snd fst pt_user pt_system].
+  rewrite (qzero_scale ((r_t b - r_t a) * inject_Z n) (r_t b - r_t a) n Hn (Qeq_refl _)).
+  destruct (qzero (r_t b - r_t a)) eqn:E; [reflexivity|].
+  assert (NZ : ~ r_t b - r_t a == 0) by (intros C; apply qzero_iff in C; congruence).
   rewrite !secs_minus, secs_plus.
   field. split; first [exact NZ | apply inject_nz; lia].
 Qed.
@@ -221,28 +222,36 @@ Theorem proc_step_spec clk st e prev :
   pe_iv e <> INeg ->
   out_eq Qeq (snd (proc_step clk st e))
              (match pe_iv e with
-              | IPos => Val (spec_proc_pct clk (pe_first e) (pe_t2 e, pe_u2 e, pe_s2 e))
-              | _ => match prev with Some p => Val (spec_proc_pct clk p (pe_first e)) | None => Val 0 end
+              | IPos => Val (spec_proc_pct clk (pe_r1 e) (pe_r2 e))
+              | _ => match prev with Some p => Val (spec_proc_pct clk p (pe_r1 e)) | None => Val 0 end
               end)
   /\ holds clk (fst (proc_step clk st e)) (pe_last e).
 Proof.
   intros Hp Hiv.
   pose proof (ncpu_eff_pos (pe_ncpu e)) as Hn.
-  unfold proc_step, pe_last, pe_first.
+  unfold proc_step, pe_last.
   destruct (pe_iv e) eqn:Ei; try congruence; cbn [is_pos].
-  - destruct prev as [[[ta ua] sa]|].
+  - destruct prev as [p|].
     + destruct Hp as (Hs & Hpr). rewrite Hs, Hpr.
-      pose proof (proc_finish_spec clk _ ta ua sa (pe_t1 e) (pe_u1 e) (pe_s1 e) Hn) as F.
+      pose proof (proc_finish_spec clk _ p (pe_r1 e) Hn) as F.
       split; [exact F|]. unfold proc_finish. cbn [fst]. split; reflexivity.
     + subst st. cbn. split; [reflexivity|]. split; reflexivity.
-  - destruct prev as [[[ta ua] sa]|].
+  - destruct prev as [p|].
     + destruct Hp as (Hs & Hpr). rewrite Hs, Hpr.
-      pose proof (proc_finish_spec clk _ ta ua sa (pe_t1 e) (pe_u1 e) (pe_s1 e) Hn) as F.
+      pose proof (proc_finish_spec clk _ p (pe_r1 e) Hn) as F.
       split; [exact F|]. unfold proc_finish. cbn [fst]. split; reflexivity.
     + subst st. cbn. split; [reflexivity|]. split; reflexivity.
-  - pose proof (proc_finish_spec clk _ (pe_t1 e) (pe_u1 e) (pe_s1 e) (pe_t2 e) (pe_u2 e) (pe_s2 e) Hn) as F.
+  - pose proof (proc_finish_spec clk _ (pe_r1 e) (pe_r2 e) Hn) as F.
     split; [exact F|]. unfold proc_finish. cbn [fst]. split; reflexivity.
 Qed.
+
+(* the decoy counters really are free: two readings that differ only in children_user,
+   children_system, iowait give the same demanded value *)
+Lemma spec_proc_pct_decoys clk a b cu cs io cu' cs' io' :
+  spec_proc_pct clk {| r_t := r_t a; r_u := r_u a; r_s := r_s a; r_cu := cu; r_cs := cs; r_io := io |}
+                    {| r_t := r_t b; r_u := r_u b; r_s := r_s b; r_cu := cu'; r_cs := cs'; r_io := io' |}
+  = spec_proc_pct clk a b.
+Proof. reflexivity. Qed.
 
 (* every sequence of calls on any number of Process objects, any cpu_count() answers *)
 Definition pinv (clk : positive) (m : amap pstate) (hist : list (Z * pevent)) : Prop :=
